@@ -2,10 +2,59 @@
 """Generates MANIFEST.json from the table below (single source of truth)."""
 import json
 BASE = "cd /repo && cargo nextest run --workspace --no-fail-fast --test-threads 8 --offline || cargo test --workspace --no-fail-fast --offline"
+NOTE = "Relative to the stated finite scopes (see the evidence file for which completed); trusts the in-house XML/SVG parser, which the C02 check binds to expat over every Unicode scalar and every distinct output."
 checks = {
+ "C01": dict(tech="bounded-exhaustive enumeration of inputs and configurations on the real library in isolated worker processes (panic / abort / stack overflow / stall detection) plus growth-ratio measurement on doubling families",
+    text="Every input of the enumerated spaces (all 2- and 3-character neighbourhoods of the drawing alphabets, all short rows over the quote/escape alphabet, all short legend-grammar and brace strings, every Unicode scalar in 3 contexts, every single-cell corruption of the catalogue circles, bullets/arrows on every slope, a corpus x extreme scales x switches x all 5 entry points) is run; any panic, abort, overflow or stall is a violation with a replay file. Growth families bound the time ratio between sizes n and 2n.",
+    note=NOTE + " The polynomial-time clause is decided as a bounded growth ratio on listed families, not as a complexity proof."),
+ "C02": dict(tech="bounded-exhaustive enumeration of characters/strings x sinks x switches on the real library; strict XML parser as oracle, itself model-checked against expat over the whole character domain; text round-trip oracle",
+    text="Every scalar of the tier's set and every short string over a markup alphabet is pushed through each of six sinks; every output must be well-formed (in-house strict parser and expat), have the SVG root, and give the text back.",
+    note="Settings strings are outside the property. Round trip for plain sinks is sub/super-sequence based because drawing characters may legitimately become geometry."),
+ "C03": dict(tech="bounded-exhaustive enumeration of all small grids on the real library; independent reference renderer; exact integer stroke-set comparison",
+    text="All grids over {space,-,|,+} up to 3x3/2x4/4x2/1x8/8x1 (complete) and slices (quick) or all (thorough) of 3x4/4x3/2x6/6x2, grids with labels, and boxes with 1-2 corrupted cells are rendered and compared with an independent per-character reference renderer as exact sets of unit stroke pieces and text cells.",
+    note=NOTE),
+ "C04": dict(tech="bounded-exhaustive enumeration of all short rows over a mixed-width alphabet on the real library; reference model of display columns",
+    text="All rows up to length 5 (7) over ASCII/2-byte/double-width/line characters, alone, forced into one span, in three-row documents and inside a box: every label character must be shown exactly once, in its own display cell.",
+    note=NOTE),
+ "C05": dict(tech="bounded-exhaustive enumeration of box families and small grids on the real library; exact geometric prediction (completeness) and border-character oracle (soundness)",
+    text="Every box of 9 styles x sizes x offsets x interiors x side patterns must be exactly one predicted rect; every rect emitted for any grid of the soundness scopes must lie on border characters.",
+    note=NOTE + " One known finding (box-drawing rounded box of inner width 0)."),
  "C06": dict(tech="bounded-exhaustive enumeration of drawings x page offsets on the real library; metamorphic oracle (translated element multiset)",
-    text="Every drawing of the enumerated scopes (all 2-character neighbourhoods over the live drawing alphabets, all parametric shape families, the bundled examples; thorough: all sparse 3x3 grids and complete offset rows 0..400 for float-geometry shapes) is converted at the origin and at each offset; all coordinates must move by exactly the shift and nothing else may change.",
-    note="Relative to the stated finite scopes; tolerance 1e-3 cell; trusts the in-house XML/SVG parser (bound to expat by the C02 check)."),
+    text="Every drawing of the enumerated scopes is converted at the origin and at each offset; all coordinates must move by exactly the shift and nothing else may change.",
+    note=NOTE + " Tolerance 1e-3 cell."),
+ "C08": dict(tech="bounded-exhaustive enumeration of payloads/strings x channels x contexts on the real library; output-grammar whitelist oracle on the parsed tree; expat cross-check of every distinct output",
+    text="26 marker-carrying payloads and all strings up to length 3 (4) over 13 markup characters in 5 channels x 4 contexts: the parsed output may contain only svgbob's vocabulary, nesting, attribute grammars; markers only in character data or class tokens.",
+    note=NOTE),
+ "C09": dict(tech="bounded-exhaustive enumeration of runs and small grids on the real library; exact rational geometry oracle",
+    text="Runs of 17 line characters x lengths up to 400 x offsets and all mixed dashed/solid runs must be one line (two for double lines); no output of the grid scopes may contain two unmarked collinear touching lines.",
+    note=NOTE),
+ "C10": dict(tech="bounded-exhaustive enumeration of component pairs/triples x layouts x gaps on the real library; metamorphic oracle (union of separately rendered parts)",
+    text="All ordered pairs of ~50 components (and triples of a subset, and all pairs of 2x2 grids over 5 characters) side by side / stacked with gaps 1..3 must render as the shifted union of their separate renderings.",
+    note=NOTE),
+ "C11": dict(tech="bounded-exhaustive enumeration of inputs x scales on the real library; metamorphic oracle (scaled element multiset)",
+    text="Every input of the scopes at scales {0.5,1,3,10,20,37.5} must equal its scale-8 rendering multiplied by s/8; absolute clause for '-' and '|'.",
+    note=NOTE + " One known finding (tags at scales below 1)."),
+ "C12": dict(tech="bounded-exhaustive enumeration of inputs x scales on the real library; canvas formula and exact bounding-box containment oracle",
+    text="Canvas formula over occupied display cells and containment of the exact bounding box of every element, over all 2-character neighbourhoods, label/wide/combining pairs, shape families at the page edges, 3 scales.",
+    note=NOTE + " One known finding (quoted text is not part of the canvas; pinned by the test escaped_shape)."),
+ "C13": dict(tech="bounded-exhaustive enumeration of catalogue drawings x offsets x contexts on the real library; geometric oracle computed from the drawing only",
+    text="Each of the 22 documented circle drawings at every offset of the tier's offset rectangle, alone and next to unrelated content, must be exactly one circle with the predicted extent and radius within the annulus tolerance.",
+    note=NOTE),
+ "C14": dict(tech="bounded-exhaustive enumeration of arrow / bullet / rounded-outline families on the real library; exact integer geometric oracle",
+    text="All arrows (8 directions x glyphs x line characters x lengths), bullets (3 kinds x 8 directions x end/mid x lengths) and rounded outlines with a stub (sizes x corner styles x stub positions) satisfy the tip/axis/base, marker-centre and arc continuity/convexity clauses.",
+    note=NOTE),
+ "C15": dict(tech="bounded-exhaustive enumeration of all short rows with quotes on the real library; reference quote scanner + metamorphic oracle (blanked row)",
+    text="All rows up to length 6 (7) over {\",a,-,|,wide,2-byte,<,space}: rendering equals that of the blanked row plus one verbatim text per quote pair.",
+    note=NOTE + " No backslashes (per the quantifier)."),
+ "C16": dict(tech="bounded-exhaustive enumeration of legend entry sequences and tag placements on the real library; reference model of the style text and of tag attachment",
+    text="All sequences of up to 2 (3) legend entries (and chains to 6) x headers x trailing lines x diagrams; 5 shapes x 5 tags x every grid position x with/without a neighbouring word.",
+    note=NOTE),
+ "C17": dict(tech="bounded-exhaustive enumeration of documents x line-ending and trailing-blank variants on the real library; metamorphic oracle (parsed documents equal)",
+    text="All documents of up to 2 (3) lines from 12 templates x {LF,CRLF} x trailing blank per line x 0..5 trailing blank lines render like the plain LF document.",
+    note=NOTE),
+ "C18": dict(tech="bounded-exhaustive enumeration of documents x settings x entry points on the real library; relational oracle between runs",
+    text="Corpus x all 8 switch sets, one-factor and all-pairs cosmetic settings, override sizes, five entry points: only the named element / style text / root size may change; entry points agree.",
+    note=NOTE),
 }
 pending = {}
 allp = ["C%02d" % i for i in range(1, 21)]
